@@ -135,7 +135,7 @@ O(id="C09.read_until_step", props=["C09", "C06", "C13"], entry="harness_read_unt
 O(id="C09.read_until_step_m4", props=["C09", "C06", "C13"], entry="harness_read_until", reach=["line_after_read", "line_too_long"],
   functions=["internal_read_until", "fill_buffer", "reorganize_read_buffer"],
   symbolic="read/write pointer positions, buffer contents, every kernel read verdict/amount/bytes, tracked stream position; delimiter CRLF",
-  assumes=["read_buffer <= read_ptr <= write_ptr <= read_buffer+M"], bounds="M=4", **_bs4)
+  assumes=["read_buffer <= read_ptr <= write_ptr <= read_buffer+M"], bounds="M=4", mem_gb=28, **_bs4)   # 11.7 M SAT variables: the 10 GB default is too small
 _fpc = ["error_function.function_pointer_call.1/closing_error"]
 _bs3c = dict({k: v for k, v in _bs3.items() if k != "harness"}, fp_restrict=_fpc)
 _bs4c = dict({k: v for k, v in _bs4.items() if k != "harness"}, fp_restrict=_fpc)
